@@ -92,7 +92,7 @@ pub struct ISnapCase {
 	pub at: u16,
 }
 
-fn run_isnap(c: &ISnapCase, st: &mut Stats) -> CaseResult {
+pub fn run_isnap(c: &ISnapCase, st: &mut Stats) -> CaseResult {
 	let cfg = cfggen::instantiate(&c.cfg).map_err(|e| Failure::new("C13:generator", format!("{}: {e}", c.cfg.name)))?;
 	let name = c.cfg.name.as_str();
 	let cs: Vec<Candle> = c.s.cs.iter().map(|k| k.candle()).collect();
